@@ -108,6 +108,38 @@ func overlappingChecks(g *gen.G, sc *gen.Scenario, n int) []gen.Request {
 	}
 	subj := []string{base[0].User, base[len(base)/2].User}
 	var out []gen.Request
+	// sub-problems on userset cycles: ask about every atom that is the user of a userset tuple, for
+	// the same subject, outer atoms before inner ones and again in reverse
+	var atoms []string
+	seen := map[string]bool{}
+	for _, t := range sc.Tuples {
+		if rm.IsUserset(t.User) {
+			for _, a := range []string{t.Obj + "#" + t.Rel, t.User} {
+				if !seen[a] {
+					seen[a] = true
+					atoms = append(atoms, a)
+				}
+			}
+		}
+	}
+	if len(atoms) > 0 && g.Chance(0.6) {
+		u := "user:" + []string{"a", "b", "c"}[g.Intn(3)]
+		if len(atoms) > 6 {
+			atoms = atoms[:6]
+		}
+		for pass := 0; pass < 2; pass++ {
+			for i := range atoms {
+				a := atoms[i]
+				if pass == 1 {
+					a = atoms[len(atoms)-1-i]
+				}
+				o, r, _ := cut(a, "#")
+				if sc.Model.Rel(rm.ObjType(o), r) != nil {
+					out = append(out, gen.Request{Kind: "check", Obj: o, Rel: r, User: u})
+				}
+			}
+		}
+	}
 	for _, r := range base {
 		if len(out) >= n {
 			break
@@ -262,6 +294,9 @@ func c08Exec(t *testing.T, sc *gen.Scenario, trace bool) *harness.Outcome {
 					tag := e.engineTags(stateFor(sc, rq2), rq2)
 					if rq2.Kind == "check" && ReachesMutualRecursion(sc.Model, rm.ObjType(rq2.Obj), rq2.Rel) {
 						tag += " reaches_mutually_recursive_relations"
+					}
+					if rq2.Kind == "check" && SelfRecursiveUsersetUnion(sc.Model, rm.ObjType(rq2.Obj), rq2.Rel) {
+						tag += " reaches_self_recursive_userset_in_union"
 					}
 					e.Violate("cache_changes_answer", fmt.Sprintf("mode=%d kind=%s subj=%s%s", mode, rq2.Kind, subjKind(rq2.User), tag), "request %d copy %d (%+v): %s with the query cache on, %s with caching disabled (cache stats %v)", i, k, rq2, a.s, want.s, cache.Stats())
 					return
